@@ -1,13 +1,14 @@
 //! Bounded stand-in for C14 (analysis data is the fixpoint of make/merge over each class) — NOT a proof.
 //! host: src/egraph/mod.rs
 //! functions: EGraph::update_analysis
-//! Three analyses whose merge is a semilattice join: MinSize (make = 1 + sum of the children's data, merge = min),
+//! Four analyses whose merge is a semilattice join: MaxDepth (make = min(8, 1 + max of the children's data), merge = max:
+//! an INCREASING analysis, for which a cyclic class must climb to the cap), MinSize (make = 1 + sum of the children's data, merge = min),
 //! Depth (make = 1 + max of the children's data, merge = min), ConstFold (make evaluates add/mul/sub/number over
 //! Z/2^32 when every child has a value, merge = the defined one; its modify hook adds the constant to the class).
 //! After EVERY operation, for EVERY live class: (1) the stored datum equals the join of make over all e-nodes of the
 //! class computed from the children's CURRENT data; (2) it equals the least fixpoint computed independently by plain
 //! iteration over `enodes` (for MinSize this is also compared with the extractor's best cost).
-//! Bound: 7 hand-written union histories + 100 (deep: 2000) generated histories per analysis: a term of depth <= 3 over var/lam/app/add/mul/sub/g/
+//! Bound: 9 hand-written union histories + 100 (deep: 2000) generated histories per analysis: a term of depth <= 3 over var/lam/app/add/mul/sub/g/
 //! numbers with 3 slot names, all subterms inserted; then either <= 3 rounds of a fixed-seed subset of 12 rules that
 //! hold in Z/2^32 (ring laws, beta with let, rules that make slots redundant) or 6 unions of ring-law instances.
 //! also-with-features: checks
@@ -38,6 +39,14 @@ impl Analysis<AL> for Depth {
     type Data = u64;
     fn make(eg: &EGraph<AL, Self>, n: &AL) -> u64 { let mut s = 0u64; for c in n.applied_id_occurrences() { s = s.max(*eg.analysis_data(c.id)); } s.saturating_add(1) }
     fn merge(l: u64, r: u64) -> u64 { l.min(r) }
+}
+/// an INCREASING analysis (merge = max): the largest depth of a term of the class, capped; a cyclic class reaches the cap
+pub const DEPTH_CAP: u64 = 8;
+#[derive(Default)] pub struct MaxDepth;
+impl Analysis<AL> for MaxDepth {
+    type Data = u64;
+    fn make(eg: &EGraph<AL, Self>, n: &AL) -> u64 { let mut s = 0u64; for c in n.applied_id_occurrences() { s = s.max(*eg.analysis_data(c.id)); } (s + 1).min(DEPTH_CAP) }
+    fn merge(l: u64, r: u64) -> u64 { l.max(r) }
 }
 #[derive(Default)] pub struct ConstFold;
 fn fold_node(n: &AL, get: &dyn Fn(Id) -> Option<u32>) -> Option<u32> {
@@ -121,6 +130,11 @@ impl Ref for Depth {
     const NAME: &'static str = "Depth";
     fn ref_make(n: &AL, get: &dyn Fn(Id) -> Option<u64>) -> Option<u64> { let mut s = 0u64; for c in n.applied_id_occurrences() { s = s.max(get(c.id)?); } Some(s.saturating_add(1)) }
     fn better(new: &u64, old: &u64) -> bool { new < old }
+}
+impl Ref for MaxDepth {
+    const NAME: &'static str = "MaxDepth";
+    fn ref_make(n: &AL, get: &dyn Fn(Id) -> Option<u64>) -> Option<u64> { let mut s = 0u64; for c in n.applied_id_occurrences() { if let Some(d) = get(c.id) { s = s.max(d); } } Some((s + 1).min(DEPTH_CAP)) }
+    fn better(new: &u64, old: &u64) -> bool { new > old }
 }
 impl Ref for ConstFold {
     const NAME: &'static str = "ConstFold";
@@ -208,6 +222,9 @@ fn hand_written() -> Vec<(Vec<&'static str>, Vec<(usize, usize)>)> {
         // a modify hook whose own union creates a congruence that changes another class's datum (re-entrant rebuild)
         (vec!["(add 3 (g 8))", "10", "(mul (add (add (g 7) 2) (g 8)) 2)", "(g 7)", "1", "(mul (mul (add (add (g 7) 2) (g 8)) 2) 5)", "(add (mul (mul (add (add (g 7) 2) (g 8)) 2) 5) 1)"], vec![(0, 1), (3, 4)]),
         (vec!["(mul 2 (g 1))", "6", "(add (mul (add (g 2) 1) (g 1)) 1)", "(g 2)", "1", "(sub (add (mul (add (g 2) 1) (g 1)) 1) 7)"], vec![(0, 1), (3, 4)]),
+        // a class merged into the class of one of its own parents, the child being the side that dies (defect fixed by 56fe5e8)
+        (vec!["0", "(g 0)", "(mul (g 0) (g 0))", "(sub (g 0) (g 0))"], vec![(0, 1)]),
+        (vec!["(var $1)", "(g (var $1))", "(mul (g (var $1)) (g (var $2)))", "(sub (g (var $1)) (g (var $1)))", "(lam $1 (g (var $1)))"], vec![(1, 0)]),
         // a cyclic class
         (vec!["(g (add (var $1) 1))", "(add (var $1) 1)", "(mul (g (add (var $1) 1)) 2)"], vec![(0, 1)]),
     ]
@@ -242,6 +259,7 @@ pub fn run(only: &[String]) -> Vec<String> {
     let deep = std::env::var("VERIF_BOUNDED_DEEP").is_ok();
     run_for::<MinSize>(&mut fails, deep);
     run_for::<Depth>(&mut fails, deep);
+    run_for::<MaxDepth>(&mut fails, deep);
     run_for::<ConstFold>(&mut fails, deep);
     fails
 }
